@@ -428,11 +428,14 @@ RootConsume(m) ==
        /\ unavS' = IF m.ty = "ok" /\ m.k = "s" THEN unavS \ {m.from} ELSE unavS
        /\ svcRoots' = IF m.ty = "ok" /\ m.k = "s" /\ m.act THEN svcRoots \cup {m.from} ELSE svcRoots
 
-\* the relay receives the oldest message of sender s (abstraction 1: any sender's head)
-RelayTake(s) ==
-  /\ rootPhase = "looping" /\ LoopCond /\ hold = NoMsg /\ out[s] # <<>>
-  /\ LET m == Head(out[s]) IN
-       /\ out' = [out EXCEPT ![s] = Tail(@)]
+\* the relay receives the i-th message of sender s; the design uses i = 1 (abstraction 1: any sender's oldest
+\* message); trace validation may use the oldest message of s *for a given destination* (deliveries to different
+\* inboxes commute, and the harness needs that freedom to be deterministic in spite of hash-set iteration order)
+RemoveAt(q, i) == SubSeq(q, 1, i - 1) \o SubSeq(q, i + 1, Len(q))
+RelayTakeAt(s, i) ==
+  /\ rootPhase = "looping" /\ LoopCond /\ hold = NoMsg /\ i \in 1..Len(out[s])
+  /\ LET m == out[s][i] IN
+       /\ out' = [out EXCEPT ![s] = RemoveAt(@, i)]
        /\ CASE m.ty = "err" ->
                  IF Watch
                  THEN UNCHANGED <<hold, rootPhase, exitStatus, errTarget, unavB, unavS, svcRoots, inbox, launched>>
@@ -450,6 +453,8 @@ RelayTake(s) ==
                       /\ launched' = launched \cup {m.dest}
                       /\ UNCHANGED <<rootPhase, exitStatus, errTarget, unavB, unavS, svcRoots, inbox>>
   /\ UNCHANGED <<cfgVars, st, pend, invalSlot, termSlot, alive, reqIdx, termRecv, envVars, obsVars>>
+
+RelayTake(s) == RelayTakeAt(s, 1)
 
 \* target_actors.send().await completes
 RelayDeliver ==
